@@ -206,9 +206,9 @@ ADDENDA4 = {
  "C04": " Refresh under verify_log/none to a list of another signer, restart under verify with the origin gone.",
  "C06": " Overlapping reads (nested and parallel), each judged like a lone read; element starts at window boundary -3..+1.",
  "C07": " Documents arriving at a refresh over a CRL in force: real loader, reader, persisting processor and both stores.",
- "C08": " LSwapFault replayed with an injected fault; a late background load of a superseded list.",
+ "C08": " LSwapFault replayed with an injected fault; a late background load of a superseded list; behaviours of Loaders.tla.",
  "C10": " Loads that fail at the swap (injected and real fault; strict and lenient).",
- "C11": " A late background load of a superseded list.",
+ "C11": " A late background load of a superseded list; Loaders.tla (active load and background load on one not yet loaded entry: NoRollback, LookupSound) replayed with origin-side gates.",
  "C12": " Every scenario under verify and none; crash images at rest; kill rounds under rotating modes.",
  "C13": " Parallel first loads from two CAs with 0/3/1/5 trusted bystander certificates.",
  "C15": " Unavailability as 503/404/500 with an error page; pass watchdog.",
